@@ -149,4 +149,20 @@ theorem newIndexGetsDeletedSet_expected : newIndexGetsDeletedSet = (true : Bool)
 
 theorem src_getDeletedTSIDs_expected : src_getDeletedTSIDs = ("{ if idx.DeleteMergeSet() == nil { return &uint64set.Set{} } if deleted, ok := idx.DeleteMergeSet().deletedTSIDs.Load().(*uint64set.Set); ok && deleted != nil { return deleted } return &uint64set.Set{} }" : String) := by rfl
 
+/-! ### SHOW TAG VALUES walks tag→tsids rows (`OG.C13.Rows`) -/
+
+theorem maxTSIDsPerRow_expected : maxTSIDsPerRow = (64 : Nat) := by rfl
+
+theorem steps_tagValuesScanLoop_expected : steps_tagValuesScanLoop = (["item := ts.Item", "if !bytes.HasPrefix(item, prefix) { break }", "if err := mp.Init(item, nsPrefixTagToTSIDs); err != nil { return nil, err }", "isExpect, tsid := mp.IsExpectedTag(deletedTSIDs, eligibleTSIDs)", "if !isExpect { continue }", "if is.TagArrayEnabled() { if !is.isExpectTagWithTagArray(tsid, seriesKeys, combineSeriesKey, condition, mp.Tag) { continue } }", "tagValueMap[string(mp.Tag.Value)] = struct{}{}", "if mp.TSIDsLen() < mergeindex.MaxTSIDsPerRow { continue }", "kb.B = append(kb.B[:0], nsPrefixTagToTSIDs)", "kb.B = marshalTagValue(kb.B, compositeKey.B)", "kb.B = marshalTagValue(kb.B, mp.Tag.Value)", "kb.B[len(kb.B)-1]++", "ts.Seek(kb.B)"] : List String) := by rfl
+
+theorem src_tagValuesFullRowCond_expected : src_tagValuesFullRowCond = ("mp.TSIDsLen() < mergeindex.MaxTSIDsPerRow" : String) := by rfl
+
+theorem tagValuesSeekGuardedByRecord_expected : tagValuesSeekGuardedByRecord = (true : Bool) := by rfl
+
+theorem tagValuesSeeksAfterFullRow_expected : tagValuesSeeksAfterFullRow = (true : Bool) := by rfl
+
+theorem steps_isExpectedTag_expected : steps_isExpectedTag = (["if eligibleTSIDs != nil && eligibleTSIDs.Len() == 0 { return false, 0 }", "brp.ParseTSIDs()", "for _, tsid := range brp.TSIDs { if !deletedTSIDs.Has(tsid) && (eligibleTSIDs == nil || eligibleTSIDs.Has(tsid)) { return true, tsid } }", "return false, 0"] : List String) := by rfl
+
+theorem steps_searchTagValues_expected : steps_searchTagValues = (["result := make([][]string, len(tagKeys))", "var eligibleTSIDs *uint64set.Set", "if condition != nil { var err error eligibleTSIDs, err = is.searchTSIDsInternal(name, condition, TimeRange{Min: 0, Max: influxql.MaxTime}) if err != nil { return nil, err } if eligibleTSIDs.Len() == 0 { return nil, nil } }", "for i, tagKey := range tagKeys { tvm, err := is.searchTagValuesBySingleKey(name, tagKey, eligibleTSIDs, condition) if err != nil { return nil, err } tagValues := make([]string, 0, len(tvm)) for tv := range tvm { tagValues = append(tagValues, tv) } result[i] = tagValues }", "return result, nil"] : List String) := by rfl
+
 end OG.C13.Facts
